@@ -14,8 +14,8 @@ EXPLANATION = ("minvar is executed with its Burg fit replaced by an ARBITRARY va
                "and a lemma, and that the AR vector (leading 1) and reflection coefficients are passed through. The un-stubbed "
                "function is run for m=2 on symbolic data, and for NFFT < 2m the identity is shown to FAIL (witness twin).")
 BOUNDS = {
-    "quick": "stubbed Burg: m in 2..3 complex and real, NFFT in {2m, 2m+1, 8}; R*G=I for m<=3 complex; un-stubbed m=2, N=4 real",
-    "thorough": "m in 2..4, NFFT in 2m..9; R*G=I m<=4 complex; un-stubbed m=2 N=4,5 real and complex; m=3 N=5 real",
+    "quick": "stubbed Burg: m in 2..4 complex and real, NFFT in {2m-1, 2m, 2m+1, 8}; R*G=I for m<=4 complex; un-stubbed m=2, N=4 real",
+    "thorough": "m in 2..6, NFFT in 2m-1..2m+4; R*G=I m<=5 complex, 6 real; un-stubbed m=2 N=4,5 real and complex; m=3 N=5 real",
 }
 ASSUMPTIONS = ["floats modelled as exact reals", "fft = DFT definition", "stubbed runs: spectrum.minvar.arburg returns an arbitrary "
                "valid Burg triple (the Burg fit itself is C13's subject)", "sampling > 0"]
@@ -189,18 +189,18 @@ def case_minvar_real(h, N, m, n, cplx):
 def cases(tier, seed):
     q = tier == 'quick'
     out = []
-    for m in ((2, 3) if q else (2, 3, 4)):
+    for m in ((2, 3, 4) if q else (2, 3, 4, 5, 6)):
         for cplx in (True, False):
-            ns = sorted(set([2 * m, 2 * m + 1, 8])) if q else list(range(2 * m, 10))
+            ns = sorted(set([2 * m - 1, 2 * m, 2 * m + 1, 8])) if q else list(range(2 * m - 1, 2 * m + 5))
             for n in ns:
-                if n < 2 * m:
+                if n < 2 * m - 1:
                     continue
                 out.append(Case("minvar:stubbed-burg:%s:m=%d:NFFT=%d" % ('cx' if cplx else 're', m, n), case_minvar_stubbed,
                                 dict(m=m, n=n, cplx=cplx), timeout=120 if q else 600, wall=600 if q else 2400))
         # witness twin: with NFFT <= 2m-2 the wrap-around of psi breaks the identity - the harness must see it
         out.append(Case("witness:minvar:NFFT=2m-2:m=%d" % m, case_minvar_stubbed, dict(m=m, n=2 * m - 2, cplx=True),
                         timeout=60, expect_sat=True))
-    for m, cplx in ([(2, True), (3, True), (3, False)] if q else [(2, True), (3, True), (4, True), (4, False), (5, False)]):
+    for m, cplx in ([(2, True), (3, True), (4, True), (4, False)] if q else [(2, True), (3, True), (4, True), (5, True), (5, False), (6, False)]):
         out.append(Case("RG=I:%s:m=%d" % ('cx' if cplx else 're', m), case_rg_identity, dict(m=m, cplx=cplx),
                         timeout=120 if q else 900))
     for m, cplx in ([(2, False), (2, True)] if q else [(2, False), (2, True), (3, False)]):
